@@ -99,14 +99,18 @@ def same_basename_sequences(res, tier):
     try:
         for i in range(max(0, len(srcs) - 1)):
             a = srcs[i]
-            texts = [a, "# revised layout\n\n\n" + srcs[i + 1], "\n" * 2 + a.replace("\n\n", "\n\n\n", 1)]
+            texts = [a, "# revised layout\n\n\n" + srcs[i + 1], "\n" * 2 + a.replace("\n\n", "\n\n\n", 1),
+                     "# saved on another system\n" + srcs[i + 1], "# pasted from an old editor\n# (classic line ending above)\n\n" + a]
             paths = []
             for k, text in enumerate(texts):
                 os.makedirs(os.path.join(tmp, f"s{i}", f"v{k}"), exist_ok=True)
                 path = os.path.join(tmp, f"s{i}", f"v{k}", "main.py")
-                # (every other sequence: the third file is saved with a byte order mark, which is not part of its text)
-                with open(path, "w", encoding="utf-8-sig" if (k == 2 and i % 2 == 0) else "utf-8") as f:
-                    f.write(text)
+                # (every other sequence: the third file is saved with a byte order mark, which is not part of its text; the
+                # fourth file has CR LF line endings and the fifth a lone CR after its first line — Python reads all three
+                # as line ends, and the lines of a program are the interpreter's lines)
+                stored = text.replace("\n", "\r\n") if k == 3 else text.replace("\n", "\r", 1) if k == 4 else text
+                with open(path, "w", encoding="utf-8-sig" if (k == 2 and i % 2 == 0) else "utf-8", newline="") as f:
+                    f.write(stored)
                 paths.append(path)
             env = dict(os.environ, PYTHONPATH=core.REPO + os.pathsep + os.path.join(core.VERIF, "harness"), PYTHONDONTWRITEBYTECODE="1")
             # ... and, last, the file just compiled is *edited in place* (its text replaced by the second one's) and compiled again
